@@ -64,7 +64,7 @@ fn extreme_i64() -> BoxedStrategy<i64> {
             cal::MIN_YEAR, cal::MIN_YEAR - 1, cal::MAX_YEAR, cal::MAX_YEAR + 1, 86_399, 86_400, 999_999_999, 1_000_000_000, 1_999_999_999, 2_000_000_000, 59, 60, 23, 24, 12, 13, 31, 32, 28, 29, 30, 365, 366, 367, 53, 54]),
         2 => any::<i64>(),
         2 => -100i64..400,
-        1 => gen::i64_edges(vec![(cal::min_day() + cal::CE_SHIFT), (cal::max_day() + cal::CE_SHIFT), -8_334_601_228_800, 8_210_266_876_799]),
+        3 => gen::i64_edges(vec![(cal::min_day() + cal::CE_SHIFT), (cal::max_day() + cal::CE_SHIFT), -8_334_601_228_800, 8_210_266_876_799]),
     ]
     .boxed()
 }
